@@ -7,7 +7,11 @@
 (*   merge[i][j]  index in D of D[i].Merge(D[j]) (same entries, same       *)
 (*                counters), 0 if the result is not a vector of the domain *)
 (*   rt[i]        index in D of Read(Write(D[i])), 0 if outside / error    *)
-(*   inc[i][p]    observations on D[i].Increment(node p)                   *)
+(*   inc[i][p]    observations on D[i].Increment(node p) (wire: the result    *)
+(*                survives Write/Read)                                        *)
+(*   mergeWire[i][j]  Read(Write(D[i].Merge(D[j]))) equals the merge result   *)
+(*   longIds      number of node-id lengths {1,17,255,256} whose vector does   *)
+(*                not round-trip                                               *)
 (*   mutated      number of operations after which an operand serialised   *)
 (*                differently than before                                  *)
 (* The laws below are stated on those tables only (plus the identity of    *)
@@ -52,7 +56,12 @@ IncrementAfter == j = 0 => \A p \in 1..Len(NodeSeq) :
                        IF Val(D[i], NodeSeq[p]) = K
                        THEN o.err                       \* at the maximum counter: an error, no vector
                        ELSE ~o.err /\ o.cmpNewOld = "GT" /\ o.cmpOldNew = "LT" /\ o.plusOne /\ o.othersSame
-OperandsUntouched == T.mutated = 0
+(* what an operation returns survives serialisation like any other vector: Read(Write(x.Increment(p))) and      *)
+(* Read(Write(x.Merge(y))) are the vectors themselves (the operands come out of the reader, as received gossip does) *)
+IncrementSurvivesWire == j = 0 => \A p \in 1..Len(NodeSeq) : Inc[i][p].err \/ Inc[i][p].wire
+MergeSurvivesWire == j > 0 => T.mergeWire[i][j]
+LongNodeIds == j = 0 => T.longIds = 0     \* node ids of 1, 17, 255 and 256 bytes (the longest legal one) round-trip
+OperandsUntouched == j = 0 => T.mutated = 0
 
 \* ---- laws over pairs and (through k) triples ------------------------------
 Converse       == j > 0 => Cmp[j][i] = Conv(Cmp[i][j])
